@@ -55,7 +55,7 @@ def shorthand_program(r):
 
 def ref_program(r):
     """returns (source, line of the offending binding, line of its call)"""
-    s, t, kind = r["s"], r["t"], r["kind"]
+    s, t, kind = r["s"], r["t"], r["kind"].replace("proj", "")
     head = DECLS.rstrip("\n").split("\n")
     L = list(head) + [""]
     pin = "    in  int z," if kind in ("maparr", "mapmap") else None
@@ -195,6 +195,9 @@ def mutants():
     mut("split_array_and_map", "    call P(\n        z = 1,\n    )", "    map call C as CC(\n        x = split self.zs,\n        s = split self.zm,\n    )\n\n    call P(\n        z = 1,\n    )", "s = split self.zm")
     mut("split_different_lengths", "    call P(\n        z = 1,\n    )", "    map call C as CC(\n        x = split [1, 2],\n        s = split [null],\n    )\n\n    call P(\n        z = 1,\n    )", "s = split [null]")
     mut("split_different_keys", "    call P(\n        z = 1,\n    )", "    map call C as CC(\n        x = split {\"a\": 1},\n        s = split {\"b\": null},\n    )\n\n    call P(\n        z = 1,\n    )", "s = split {")
+    mut("split_keys_subset_first", "    call P(\n        z = 1,\n    )", "    map call C as CC(\n        x = split {\"a\": 3},\n        s = split {\"a\": null, \"b\": null},\n    )\n\n    call P(\n        z = 1,\n    )", "s = split {")
+    mut("split_keys_superset_first", "    call P(\n        z = 1,\n    )", "    map call C as CC(\n        x = split {\"a\": 3, \"b\": 4},\n        s = split {\"a\": null},\n    )\n\n    call P(\n        z = 1,\n    )", "s = split {")
+    mut("split_arrays_shorter_first", "    call P(\n        z = 1,\n    )", "    map call C as CC(\n        x = split [1],\n        s = split [null, null],\n    )\n\n    call P(\n        z = 1,\n    )", "s = split [null, null]")
     mut("return_wrong_type", "y = C.y,", "y = P.vs,", "y = P.vs")
     mut("return_missing", "        y = C.y,\n", "", "return (")
     mut("return_unknown", "        y = C.y,\n", "        y = C.y,\n        w = 1,\n", "w = 1")
